@@ -343,3 +343,13 @@ package decoder
 //@   loop 2: decreases i + 1
 //@   loop 3: invariant 0 <= i && i <= 5 && ijMin - 1 <= j && j <= dimension - 9 && this.bitMatrix == m && this.parsedVersion == nil && ijMin == dimension - 11 && dimension == m.height
 //@   loop 3: decreases j - ijMin + 1
+
+// NewBitMatrixParser accepts only matrices that can be a QR symbol: square, dimension 21..177 with dimension = 17 (mod 4);
+// every later step (ReadVersion, unmasking with Flip over dimension x dimension cells) relies on it
+//@ func NewBitMatrixParser(bitMatrix *gozxing.BitMatrix) (r *BitMatrixParser, e error)
+//@   property C06
+//@   requires bitMatrix != nil && gozxing.wfBM(bitMatrix)
+//@   ensures (e == nil) == (bitMatrix.height >= 21 && bitMatrix.height % 4 == 1 && bitMatrix.width == bitMatrix.height)
+//@   ensures e == nil ==> r != nil && r.bitMatrix == bitMatrix && r.parsedVersion == nil
+//@   ensures e != nil ==> r == nil
+//@   modifies nothing
